@@ -36,11 +36,13 @@ def run(eng, R):
           what="chi2 probability must be the upper tail 1 - CDF_chi2(ndf)(cost)")
     for cname in ("FitBase", "MultiFit"):
         f = get_func(p, cname, "chi2_probability")
-        subs = [n for n in ast.walk(f.node) if isinstance(n, ast.AugAssign) and isinstance(n.op, ast.Sub) and isinstance(n.target, ast.Name) and n.target.id == "_cost"]
+        # every subtraction of a graph node's value (`<cost> -= <x>._nexus.get(...).value`), whatever the accumulator is called
+        subs = [n for n in ast.walk(f.node) if isinstance(n, ast.AugAssign) and isinstance(n.op, ast.Sub) and isinstance(n.target, ast.Name)
+                and any(isinstance(c, ast.Call) and isinstance(c.func, ast.Attribute) and c.func.attr == "get" and "_nexus" in ast.unparse(c.func.value) for c in ast.walk(n.value))]
         ok_all = bool(subs)
         bad = None
         for n in subs:
-            conds = " ".join(ast.unparse(c) for c, pol in common.guard_conditions(f.node, n) if pol)
+            conds = " ".join(ast.unparse(common.resolve_local(f.node, c)) for c, pol in common.guard_conditions(f.node, n) if pol)   # (a flag held in a local is read through)
             if not ("add_determinant_cost" in conds or "_shared_error_nodes_initialized" in conds):
                 ok_all = False
                 bad = n
